@@ -36,13 +36,24 @@ func ListenTCPPort(host string, port int, srv *Server, implicitTLS bool) (*TCPLi
 			if err != nil {
 				return
 			}
-			s := srv.Serve(c, implicitTLS)
+			t.mu.Lock()
+			cur := t.Srv
+			t.mu.Unlock()
+			s := cur.Serve(c, implicitTLS)
 			t.mu.Lock()
 			t.Sessions = append(t.Sessions, s)
 			t.mu.Unlock()
 		}
 	}()
 	return t, nil
+}
+
+// SetServer changes the behaviour for the connections accepted from now on (the same address turns
+// into "another server": a relay restarted with a different configuration).
+func (t *TCPListener) SetServer(srv *Server) {
+	t.mu.Lock()
+	t.Srv = srv
+	t.mu.Unlock()
 }
 
 // Port returns the port the listener is bound to.
@@ -52,7 +63,10 @@ func (t *TCPListener) Port() int { return t.L.Addr().(*net.TCPAddr).Port }
 func (t *TCPListener) Close() []*Session {
 	_ = t.L.Close()
 	<-t.done
-	t.Srv.Release()
+	t.mu.Lock()
+	cur := t.Srv
+	t.mu.Unlock()
+	cur.Release()
 	t.mu.Lock()
 	ss := append([]*Session{}, t.Sessions...)
 	t.mu.Unlock()
